@@ -312,6 +312,11 @@ func (o *Own) classOf1(v ssa.Value) vpair {
 					c := freshP
 					n := 0
 					for _, rf := range *al.Referrers() {
+						if st, ok := rf.(*ssa.Store); ok && st.Addr == ssa.Value(al) {
+							// the whole struct was copied into the local: its field is a part of the copied value
+							n++
+							c = joinP(c, sub(o.classOf(st.Val)))
+						}
 						if fa2, ok := rf.(*ssa.FieldAddr); ok && fa2.Field == a.Field && fa2.Referrers() != nil {
 							for _, rr := range *fa2.Referrers() {
 								if st, ok := rr.(*ssa.Store); ok && st.Addr == fa2 {
